@@ -264,14 +264,10 @@ def attribute(res):
         if site is not None and site is not clause:
             stext = extract.norm_ws(re.sub(r'//.*$', '', site['hl'] or site['text']))
         if kind in ('arith', 'div0', 'shift', 'index', 'decr', 'cast', 'unreach', 'match'):
-            tags.add('C12')
-            if f:
-                tags.update(f['tags'])
+            tags = {'C12'}        # built-in safety / termination obligations: panic freedom
         elif kind == 'pre' and clause and clause['file'].startswith('/'):
             # precondition of a std/vstd function (index, unwrap, slice range ...): panic freedom
-            tags.add('C12')
-            if f:
-                tags.update(f['tags'])
+            tags = {'C12'}
         elif kind == 'assert' and ctext.startswith('INV '):
             tags.add('C12')      # R4: always-on assert_invariant! panics iff the condition is false
         elif not tags and f:
